@@ -37,6 +37,8 @@ struct Inner {
     yield_seed: Option<u64>,
     // overtake mode: delay an append at log.pre until a later seq of the same stream is flushed
     overtake: Option<(HashSet<String>, Duration)>,
+    overtake_cache: bool, // delay at cache.enter until a later seq of the stream passed cache.exit (instead of log.pre / log.flushed)
+    cache_max: HashMap<String, u64>,
     flushed_max: HashMap<String, u64>,
     delaying: HashSet<String>,
     overtaken: u64,
@@ -177,7 +179,39 @@ impl rip_kernel::verif::Sink for Hub {
                     self.cv.notify_all();
                 }
             }
-            if name == "log.pre" || name == "emit.numbered" {
+            if name == "cache.exit" && g.overtake_cache {
+                if let (Some(st), Some(q)) = (fields.get("stream").and_then(|s| s.as_str()), fields.get("seq").and_then(|s| s.as_u64())) {
+                    let e = g.cache_max.entry(st.to_string()).or_insert(0);
+                    if q >= *e {
+                        *e = q;
+                    }
+                    self.cv.notify_all();
+                }
+            }
+            if name == "cache.enter" && g.overtake_cache {
+                if let Some((_, wait)) = g.overtake.clone() {
+                    let st = fields.get("stream").and_then(|s| s.as_str()).unwrap_or("").to_string();
+                    let q = fields.get("seq").and_then(|s| s.as_u64()).unwrap_or(0);
+                    let deadline = Instant::now() + wait;
+                    let first = q > 0 && g.delaying.insert(st.clone());
+                    while first {
+                        if g.cache_max.get(&st).map(|m| *m > q).unwrap_or(false) {
+                            g.overtaken += 1;
+                            break;
+                        }
+                        let now = Instant::now();
+                        if now >= deadline || g.overtake.is_none() {
+                            break;
+                        }
+                        let (ng, _) = self.cv.wait_timeout(g, deadline - now).unwrap();
+                        g = ng;
+                    }
+                    if first {
+                        g.delaying.remove(&st);
+                    }
+                }
+            }
+            if (name == "log.pre" || name == "emit.numbered") && !g.overtake_cache {
                 if let Some((kinds, wait)) = g.overtake.clone() {
                     let sk = fields.get("sk").and_then(|s| s.as_str()).unwrap_or("");
                     if kinds.contains(sk) {
@@ -302,6 +336,13 @@ impl Hub {
         let mut g = self.inner.lock().unwrap();
         g.overtake = Some((kinds.iter().map(|s| s.to_string()).collect(), wait));
         g.flushed_max.clear();
+        g.overtaken = 0;
+    }
+    pub fn set_overtake_cache(&self, wait: Duration) {
+        let mut g = self.inner.lock().unwrap();
+        g.overtake = Some((HashSet::new(), wait));
+        g.overtake_cache = true;
+        g.cache_max.clear();
         g.overtaken = 0;
     }
     pub fn end_overtake(&self) -> u64 {
